@@ -77,6 +77,25 @@ def runQuery (args : List Sexp) : Option String := do
       let spec := specRowsForAll W D (vars.map (·.1)) sel sc u fcond
       return s!"{id}\tR\t{renderRows rs}\tS\t{renderRows spec}\tB\t-"
   | _ => pure ()
+  -- and_(d?, for_all(us, c)...) in either order: `(foralls ((us..) c..) ...)`, `(fafirst 0|1)`
+  match field? "foralls" args with
+  | some entries =>
+      let fas ← entries.mapM fun e => do
+        let parts ← e.list?
+        let us ← (← (← parts.head?).list?).mapM Sexp.nat?
+        match parts.tail with
+        | fc :: fcs => pure (us, chain SCond.and2 (← decSCond fc) (← fcs.mapM decSCond))
+        | [] => none
+      let first := match field? "fafirst" args with
+        | some (x :: _) => x.nat? == some 1
+        | _ => false
+      let faStages : List (Stage PVal) := fas.map fun p => .forAll p.1 (build p.2)
+      let cStage : List (Stage PVal) := match sc with | some c => [.cond (build c)] | none => []
+      let stages := if first then faStages ++ cStage else cStage ++ faStages
+      let rs := rowsStages W D sel stages
+      let spec := specRowsStages W D (vars.map (·.1)) sel sc fas
+      return s!"{id}\tR\t{renderRows rs}\tS\t{renderRows spec}\tB\t-"
+  | none => pure ()
   let q : Query PVal := { sel := sel, cond := sc.map build }
   let spec := specRows W D (vars.map (·.1)) sel sc
   -- L2: the cache- and de-dup-aware machine, two evaluations with caching on and two with caching off
